@@ -699,6 +699,11 @@ class Run:
             self.stats["monitor_failures"] += 1
         n = self.n_order_events
         self.n_order_events += 1
+        if self.d.now_available and ev.when != self.d.now():
+            # an order event produced by a scheduled job is delivered together with the *next* primary events, with
+            # the clock already advanced (outside the quantifier of the exsim properties): observe it, do not act on it
+            self.stats["stale_order_events_not_acted_on"] += 1
+            return
         for a in self.sc.get("on_order_event", []):
             if a["nth_event"] == n:
                 await self.do(a["action"], ctx_order=ev.order.id)
